@@ -39,7 +39,7 @@ PROPS = {
              "comment | blank | begin NAME | end [junk] | %include F | text, nesting depth biased to 9..11, 19..21, 39..41, 79..81, 159..161, 200, 255, 0..200 registered contexts bound to 8 recording handlers, "
              "optional override of the null context, fopen failures and seeded read chunking from the parse op's fault script, parse with and without a search path; "
              "oracle = reference dispatcher producing the exact handler-call trace incl. state tokens, stack balance and index<capacity through read-only accessors; "
-             "Since rounds 10-12: the program may rename itself (libast_set_program_name) and the environment may change between two parses; up to 255 registered contexts with a preference for the last one in begin lines. Since round 17: a read of a config stream may fail once with EINTR (fault ETRANSIENT) and work again; accepted readings: the file ends at the failed read, or nothing is lost. distinct = distinct trace hash; non-trivial = >= 3 ops",
+             "Since rounds 10-12: the program may rename itself (libast_set_program_name) and the environment may change between two parses; up to 255 registered contexts with a preference for the last one in begin lines. Since round 17: a read of a config stream may fail once with EINTR (fault ETRANSIENT) and work again; the handler trace of such a parse is not judged (the statement does not quantify over failing reads), files closed and file stack restored are, and the run ends there. distinct = distinct trace hash; non-trivial = >= 3 ops",
              probes=["config_read_failed_once_inside_the_file", "file_taken_to_end_at_the_failed_read", "environment_changed_between_parses", "program_renamed", "line_delivered_with_open_expansion", "depth_crossed_20", "depth_crossed_40", "depth_crossed_80", "depth_crossed_160", "include_depth_crossed_10", "include_depth_crossed_20", "include_depth_crossed_40",
                      "include_depth_crossed_80", "include_depth_crossed_160", "unknown_context", "surplus_end", "eof_without_newline", "include_open_failed", "contexts_crossed_20",
                      "contexts_crossed_160", "unbalanced_input", "file_opened_but_unreadable", "empty_file",
